@@ -179,6 +179,18 @@ def world_task(task):
     rng = random.Random(seed)
     kw = {"jitter": 1e-10} if opt == "jitter" else {}
     try:
+        if opt == "sheared":
+            # the same crystal described with skewed lattice vectors (random unimodular basis change), kept as given
+            d = w["dim"]
+            while True:
+                U = np.eye(d, dtype=int)
+                for _ in range(3):
+                    i, j = rng.sample(range(d), 2)
+                    U[:, i] += rng.choice((-1, 1)) * U[:, j]
+                if not np.array_equal(U, np.eye(d, dtype=int)):
+                    break
+            w = dict(worlds.supercell_world(w, U), name=w["name"])
+            kw = {"noreduce": True}
         crys, unit = worlds.realise(w, rng, 1.0, True, **kw)
         ow = worlds.observe(crys, unit, Dhint=w["D"])
     except Exception as ex:
@@ -211,7 +223,8 @@ def world_task(task):
             continue
         q = dict(q, classes=classes, lattice=lattice, args=[float(cutoff), [float(r) for r in rads]])
         queries.append(q)
-    return {"status": "ok", "ow": ow, "queries": queries, "errors": errors, "lattice": crys.lattice.tolist()}
+    return {"status": "ok", "ow": ow, "queries": queries, "errors": errors, "lattice": crys.lattice.tolist(),
+            "nG": len(crys.G)}
 
 
 def family_of(w):
@@ -240,6 +253,8 @@ def run(ctx):
             tasks.append((w, "default", rng.getrandbits(48), quick))
             if not quick or len(tasks) % 4 == 0:
                 tasks.append((w, "jitter", rng.getrandbits(48), quick))
+            for _ in range(2 if (not quick or w["dim"] == 2 or len(tasks) % 2 == 0) else 1):
+                tasks.append((w, "sheared", rng.getrandbits(48), quick))
         for _ in range(20 if quick else 300):
             w = worlds.random_world(rng, maxatoms=5, nspecies=rng.choice((1, 2, 2, 3)))
             tasks.append((w, "default", rng.getrandbits(48), quick))
@@ -276,7 +291,7 @@ def run(ctx):
         cases.append({"w": {k: ow[k] for k in ("dim", "M", "D", "basis")},
                       "queries": [{k: q[k] for k in ("chem", "cut2x2", "rad", "band", "lemma", "classes", "lattice")} for q in r["queries"]]})
         metas.append({"name": w["name"], "family": fam, "opt": opt, "world": w, "seed": seed, "lattice": r["lattice"],
-                      "queries": r["queries"]})
+                      "queries": r["queries"], "nG": r.get("nG")})
 
     # heaviest cases first: the round-robin split of run_cases then balances the shards
     def weight(c):
@@ -306,6 +321,12 @@ def run(ctx):
             ctx.case(json.dumps([c["w"]["M"], c["w"]["D"], c["w"]["basis"], q["chem"], q["cut2x2"], q["rad"]]),
                      nontrivial=g.get("reported", 0) > 0 and g.get("order", 1) > 1)
             for clause in sorted(set(failed.get(qn, []))):
+                if m["opt"] == "sheared" and clause in ("class_closed_under_space_group", "class_is_one_orbit") \
+                        and g.get("order") != m.get("nG"):
+                    # in skewed lattice coordinates the rotations have integer entries beyond the bound (2) of TLC's
+                    # definitional enumeration: the model's group is then a proper subgroup and the two clauses that
+                    # quantify over the group are not judged (set equality, uniqueness, reversal, lattice form are)
+                    continue
                 ctx.violation("clause|%s|%s|chem=%d|%s|%s" % (clause, m["family"], q["chem"], q["mode"], m["opt"]),
                               "world %s (%s): jumpnetwork(chem=%d, cutoff=%.6f [between shells %d and %d], closestdistance=%s) "
                               "fails clause %s of Check_C21; observed world %s; reported %s jumps in %s classes, definitional "
